@@ -238,6 +238,14 @@ func mapField(
 		}
 		sourceMatch, err := xtype.FindExactField(nextSource, path[i])
 		if err == nil {
+			if !xtype.Accessible(sourceMatch.Obj, ctx.OutputPackagePath) {
+				cause := fmt.Sprintf("Cannot access the unexported source field or method %q from the output package.", sourceMatch.Name)
+				return nil, nil, nil, nil, false, NewError(cause).Lift(&Path{
+					Prefix:     ".",
+					SourceID:   sourceMatch.Name,
+					SourceType: "???",
+				}).Lift(lift...)
+			}
 			nextSource = sourceMatch.Type
 			nextIDCode = nextIDCode.Clone().Dot(sourceMatch.Name)
 			liftPath := &Path{
